@@ -436,6 +436,25 @@ func genOp(t *rapid.T, w *World, pre *Snapshot, prof Profile) Op {
 				break
 			}
 		}
+		if pct(t, 12, "seq.close") {
+			// aim at a longer cycle: a path a -> b -> c exists (a depends on b, b on c); ask for
+			// c to depend on a
+			var paths [][2]string
+			for _, a := range pre.SortedIDs() {
+				for _, b := range pre.Items[a].Deps {
+					if bi := pre.Items[b]; bi != nil {
+						for _, c := range bi.Deps {
+							paths = append(paths, [2]string{a, c})
+						}
+					}
+				}
+			}
+			if len(paths) > 0 {
+				pth := paths[uni(t, len(paths), "seq.path")]
+				op.Refs = []Ref{g.ref(pth[0]), g.ref(pth[1])}
+				break
+			}
+		}
 		if pct(t, 25, "seq.reverse") {
 			// aim at a cycle: take an existing edge and ask for the opposite order
 			var edges [][2]string
